@@ -98,10 +98,13 @@ def explore(ck, cfg, maxlen, mode_args):
     exe, b = vlib.compile_harness(cfg, [os.path.join(vlib.VERIF, "harness", "h_c03.cpp")], "c03")
     env = {"ASAN_OPTIONS": "detect_leaks=0:detect_stack_use_after_return=0:abort_on_error=0:exitcode=71"}
     rows, out, err, rc = runner.run_harness(exe, ["--param", "maxlen=%d" % maxlen] + mode_args, env=env, timeout=1500)
+    ya = mode_args[mode_args.index("--yield-at") + 1] if "--yield-at" in mode_args else "before"
+    for r in rows:
+        r["yield_at"] = ya
     if rc != 0:
         m = re.search(r"CRASH signal=(\d+) choices=([\d,]*)", out + err)
         ck.hits.append(dict(what="h_c03 (%s) failed rc=%d: %s" % (cfg, rc, (err or out)[-800:]), key="crash:" + cfg,
-                            replay=dict(harness="h_c03", config=cfg, choices=m.group(2) if m else None)))
+                            replay=dict(harness="h_c03", config=cfg, choices=m.group(2) if m else None, yield_at=ya)))
     return rows
 
 
@@ -121,16 +124,25 @@ def main(ck):
     rows = []
     # unique-future pipelines (s*/f*/...) are replayed through Own.run; the SharedFuture family (shared/...) is
     # oracle-only (plain and unwrapping continuations, throwing / skipped, while other handles stay alive)
+    # "--yield-at after": the fiber switch is offered right after a wrapped operation instead of before it, so the plain
+    # code that follows an operation (a release, a store into something just published) is a separate step
+    after, both = ["--yield-at", "after"], ["--yield-at", "both"]
     if ck.tier == "quick":
         rows += explore(ck, "F", 1, ["--mode", "dfs", "--only", "/f"])
-        rows += explore(ck, "F", 2, ["--mode", "random", "--max", "40", "--seed", str(ck.seed), "--only", "/f"])
+        rows += explore(ck, "F", 1, ["--mode", "dfs", "--only", "/f"] + after)
+        rows += explore(ck, "F", 2, ["--mode", "random", "--max", "40", "--seed", str(ck.seed), "--only", "/f"] + both)
         rows += explore(ck, "F", 1, ["--mode", "dfs", "--pb", "2", "--only", "shared/"])
+        rows += explore(ck, "F", 1, ["--mode", "dfs", "--pb", "2", "--only", "shared/"] + after)
     else:
         rows += explore(ck, "F", 1, ["--mode", "dfs", "--only", "/f"])
+        rows += explore(ck, "F", 1, ["--mode", "dfs", "--only", "/f"] + after)
         rows += explore(ck, "F", 2, ["--mode", "dfs", "--pb", "3", "--only", "/f"])
+        rows += explore(ck, "F", 2, ["--mode", "dfs", "--pb", "3", "--only", "/f"] + after)
         rows += explore(ck, "F", 1, ["--mode", "dfs", "--only", "shared/"])
+        rows += explore(ck, "F", 1, ["--mode", "dfs", "--only", "shared/"] + after)
         rows += explore(ck, "FA", 1, ["--mode", "dfs", "--pb", "2"])
-        rows += explore(ck, "FA", 2, ["--mode", "random", "--max", "60", "--seed", str(ck.seed), "--only", "/f"])
+        rows += explore(ck, "FA", 1, ["--mode", "dfs", "--pb", "2"] + after)
+        rows += explore(ck, "FA", 2, ["--mode", "random", "--max", "60", "--seed", str(ck.seed), "--only", "/f"] + both)
     heads = [r for r in rows if "mode" in r]
     traces = [r for r in rows if "trace" in r]
     ck.cov["evaluations"] = sum(h["executions"] for h in heads)
@@ -140,7 +152,8 @@ def main(ck):
     for t in traces:
         if t["fail"]:
             ck.hits.append(dict(what="%s: %s" % (t["scenario"], t["fail"]), key=t["fail"][:50],
-                                replay=dict(harness="h_c03", scenario=t["scenario"], choices=t["choices"], trace=t["trace"])))
+                                replay=dict(harness="h_c03", scenario=t["scenario"], choices=t["choices"], trace=t["trace"],
+                                            yield_at=t.get("yield_at"))))
     seen, terms, metas = set(), [], []
     seen_ev, dup_ev = set(), 0
     for t in traces:
@@ -213,6 +226,7 @@ def replay(ck, path):
         return 0
     exe, b = vlib.compile_harness(rp.get("config", "F"), [os.path.join(vlib.VERIF, "harness", "h_c03.cpp")], "c03")
     n = len(re.findall(r"m\dk\d", rp["scenario"]))
-    rows, out, err, rc = runner.run_harness(exe, ["--param", "maxlen=%d" % n, "--mode", "replay", "--exact", rp["scenario"], "--choices", rp["choices"]])
+    rows, out, err, rc = runner.run_harness(exe, ["--param", "maxlen=%d" % n, "--mode", "replay", "--exact", rp["scenario"], "--choices", rp["choices"],
+                                                  "--yield-at", rp.get("yield_at") or "before"])
     print(out)
     return 1 if rc != 0 or any(r.get("fail") for r in rows if "trace" in r) else 0
